@@ -114,6 +114,8 @@ def run(ctx):
     gm.rule_boundary_as_rect(ctx, "R06.6", ctx.tier)
     gm.rule_rect_contains(ctx, "R06.7")
     gm.rule_bbox_contains(ctx, "R06.7b")
+    from rules import boolxfer as bx
+    bx.run_table(ctx, "R06.3b", bx.GDS_IMPORT)
     # ---- R06.8 flattened geometry: each reference is reflected, rotated, then translated, parents applied outermost (C12's rules)
     from rules import C12 as c12
     c12.run(ctx.sub("R06.8", "instance transforms and flattening satisfy the transform rules of C12 (reflect, then rotate, then translate; parent-first cascade)"))
